@@ -44,6 +44,9 @@ QUERIES_RULE = ("queries: every string over a small alphabet (lengths 0..3 quick
                 "functions and all NULL/zero/over-limit combinations")
 
 
+EXTRA_HARNESSES = {"C01": ["tok"], "C02": ["tok"]}
+
+
 def _engine_check(prop, cfgs, level_text, assumptions, modes=(0,), queries=False):
     def run(tier):
         t0 = time.time()
@@ -53,6 +56,9 @@ def _engine_check(prop, cfgs, level_text, assumptions, modes=(0,), queries=False
         if queries:
             jobs += harness_jobs("queries", prop, tier, ["plain"])
             hs.append("queries")
+        for h in EXTRA_HARNESSES.get(prop, []):
+            jobs += harness_jobs(h, prop, tier, ["plain"], nw=4)
+            hs.append(h)
         run_workers(jobs, res)
         res.evaluations = res.counters.get("calls", 0)
         return finish(res, tier, "exploration", ENGINE_RULE + ("; " + QUERIES_RULE if queries else ""), t0,
@@ -89,6 +95,23 @@ def _c10(tier):
 
 
 CHECKS["C10"] = _c10
+
+
+def _c14(tier):
+    t0 = time.time()
+    res = Results("C14")
+    run_workers(harness_jobs("tok", "C14", tier, ["plain"], nw=8), res)
+    res.evaluations = res.counters.get("calls", 0)
+    return finish(res, tier, "exploration",
+                  "call sequences: every string over {',', ';', 'a', 'b'} of length 0..5 (quick) / 0..7 (thorough) x dmax in {len+1, len+2, len+5, len, len-1} x "
+                  "7 delimiter regimes (1 char, 2 chars, empty, 16 chars, 17 chars, alternating between calls, none present) x strtok_s/wcstok_s, each continued "
+                  "until 4 NULLs (terminated) or 2 NULLs (error sequences); distinct = distinct (function, string, dmax variant, delimiter regime, object-size mode) sequences completed", t0,
+                  extra_cov=dict(builds=["plain"], harnesses=["tok"], sequences=res.counters.get("sequences", 0), tokens_checked=res.counters.get("tokens_checked", 0),
+                                 exhaustive=True, exhaustive_scope="strings over the 4-symbol alphabet up to the stated length (lengths 6-7: delimiter regimes 2,3,4,6 sampled 1/7)"),
+                  assumptions=FENCE_ASSUME + ["reference tokenizer: 12 lines in harness/tok.c (ISO C strtok semantics per call with the delimiter set of that call)"], min_evals=1000)
+
+
+CHECKS["C14"] = _c14
 
 
 def _c16(tier):
